@@ -16,7 +16,7 @@ RULE = ("One contig (250-600 bp, random bases, optionally with planted short tan
         "Oracle per (read, variant): geometry decides fully-covers / does-not-overlap / partial; the recorded allele is "
         "compared with the haplotype the read was copied from. Non-trivial = a (read, variant) pair in which the variant "
         "lies within 3 bp of a CIGAR operation boundary or read end, or the read carries S/N/I/D besides the variant. "
-        "Distinct = distinct generated case; evaluations = BAM files, units = judged (read, variant) pairs.")
+        "A second part places variants only 1-9 bp apart and uses detection without reference (neighbours do not interact there); insertions up to 45 bp occur in the main part. Distinct = distinct generated case; evaluations = BAM files, units = judged (read, variant) pairs.")
 ASSUMPTIONS = [
     "reads are exact copies of a haplotype with indels placed at the variant's normalised position (suffix-then-prefix trimming)",
     "fully covers = one N-free aligned block contains the VCF REF span plus one flanking base on each side; does not overlap = no aligned or deleted base inside the REF span; everything else is partial and not judged",
@@ -44,7 +44,7 @@ def shiftable(seq, v, w=12):
     return False
 
 
-def gen_case(draw):
+def gen_case(draw, close=False):
     L = draw(st.integers(250, 600))
     seq = list(G.random_seq(draw(st.integers(0, 10 ** 6)), L))
     # plant a few short tandem repeats so that shiftable indels occur
@@ -54,8 +54,12 @@ def gen_case(draw):
         rep = (unit * 12)[:draw(st.integers(4, 14))]
         seq[p:p + len(rep)] = list(rep)
     seq = "".join(seq)
-    variants = G.gen_contig_variants(draw, seq, mingap=30, maxgap=70, maxlen=6, kinds=("snv", "snv", "ins", "ins", "del", "del", "mnp"),
-                                     hidden_share=12)
+    if close:
+        # closely spaced variants (1-9 bp apart): only meaningful for CIGAR-based detection, where neighbours do not interact
+        variants = G.gen_contig_variants(draw, seq, mingap=1, maxgap=9, maxlen=6, kinds=("snv", "snv", "ins", "ins", "del", "del", "mnp"))
+    else:
+        variants = G.gen_contig_variants(draw, seq, mingap=30, maxgap=70, maxlen=draw(st.sampled_from([6, 6, 6, 45])),
+                                         kinds=("snv", "snv", "ins", "ins", "del", "del", "mnp"), hidden_share=12)
     haps = G.gen_haplotypes(draw, len(variants), 2)
     case = {"contigs": [{"name": "chr1", "seq": seq}], "variants": {"chr1": variants}, "samples": ["s"],
             "haps": {"s": {"chr1": haps}}}
@@ -107,7 +111,7 @@ def gen_case(draw):
             spec["eqx"] = True
         specs.append(spec)
     case["read_specs"] = specs
-    case["use_reference"] = draw(st.booleans())
+    case["use_reference"] = False if close else draw(st.booleans())
     return case
 
 
@@ -214,4 +218,16 @@ class AllelePart:
         ctx.nontrivial(nt)
 
 
-PARTS = [AllelePart()]
+class ClosePart(AllelePart):
+    """variants 1-9 bp apart, detection without reference (CIGAR based)"""
+    name = "close-noref"
+    budget = {"quick": 1600, "thorough": 30000}
+
+    def strategy(self, tier):
+        @st.composite
+        def case(draw):
+            return gen_case(draw, close=True)
+        return case()
+
+
+PARTS = [AllelePart(), ClosePart()]
